@@ -4,14 +4,18 @@ import signal, json, os, sys, tempfile, shutil
 from biogeme.filenames import get_new_file_name
 
 def _alarm(*a):
-    raise TimeoutError('no answer after 20 s')
+    raise TimeoutError('no answer after 5 s')
 
 
 signal.signal(signal.SIGALRM, _alarm)
 cases = json.load(sys.stdin)
 out = []
+timeouts = 0
 root = os.getcwd()
 for c in cases:
+    if timeouts >= 3:   # the implementation stopped answering: do not hang the harness
+        out.append({'ok': False, 'exc': 'TimeoutError', 'msg': 'skipped after 3 timeouts', 'unchanged': True})
+        continue
     d = tempfile.mkdtemp(dir=root)
     os.chdir(d)
     try:
@@ -21,12 +25,13 @@ for c in cases:
             os.mkdir(f)
         before = sorted(os.listdir('.'))
         try:
-            signal.alarm(20)
+            signal.alarm(5)
             r = get_new_file_name(c['name'], c['ext'])
             signal.alarm(0)
             res = {'ok': True, 'name': r, 'existed': os.path.isfile(r)}
         except Exception as e:  # noqa
             signal.alarm(0)
+            timeouts += isinstance(e, TimeoutError)
             res = {'ok': False, 'exc': type(e).__name__, 'msg': str(e)[:200]}
         res['unchanged'] = before == sorted(os.listdir('.'))
         out.append(res)
